@@ -275,6 +275,7 @@ fn op_faults(ctx: &Ctx, acc: &mut Acc, cfg: &Cfg, prefix: &[Op], op: &Op, two: b
                 let fired = rig.bd.borrow().failed_ops.clone();
                 let mk = |kind: &str, m: String| Some((format!("{}/{kind}", op.name()), format!("{:?} after {prefix:?} on {:?}, fault at operation index {k} ({mode:?}): {m}", op, cfg.tr)));
                 let mut bad = None;
+                let mut reported = orient;
                 if fired.len() != 1 || fired[0].0 != base + k {
                     bad = mk("fault-not-fired", format!("fired {fired:?}"));
                 } else {
@@ -298,8 +299,18 @@ fn op_faults(ctx: &Ctx, acc: &mut Acc, cfg: &Cfg, prefix: &[Op], op: &Op, two: b
                         let d = rig.dut.as_ref().unwrap();
                         if d.is_sleeping() != sleeping_before {
                             bad = mk("sleep-flag", format!("is_sleeping() = {} after the failed call, last successful state {}", d.is_sleeping(), sleeping_before));
-                        } else if d.orientation() != orient {
-                            bad = mk("orientation-changed-by-failed-call", format!("orientation() = {} after the failed call, was {orient}", d.orientation()));
+                        } else {
+                            // a failed set_orientation(o) may leave the old orientation or (if the address mode had
+                            // already reached the controller) the new one - but what the display reports must be what
+                            // the controller holds; any other call must not change it at all
+                            let rep = d.orientation();
+                            let allowed = rep == orient || matches!(op, Op::SetOrientation(o) if *o == rep);
+                            if !allowed {
+                                bad = mk("orientation-changed-by-failed-call", format!("orientation() = {rep} after the failed call, was {orient}"));
+                            } else if !matches!(cfg.model, ModelId::Fixed43) && rig.ctl.madctl != crate::spec::madctl_spec(cfg.bgr, rep, cfg.refresh) {
+                                bad = mk("orientation-inconsistent-after-failed-call", format!("orientation() = {rep} after the failed call but the controller holds MADCTL {:02x}", rig.ctl.madctl));
+                            }
+                            reported = rep;
                         }
                     }
                     if bad.is_none() && k2.is_none() {
@@ -342,7 +353,7 @@ fn op_faults(ctx: &Ctx, acc: &mut Acc, cfg: &Cfg, prefix: &[Op], op: &Op, two: b
                     }
                     if bad.is_none() {
                         let f2 = k2.map(|at| Fault { at, mode: FaultMode::Unchanged });
-                        if let Some((s, m)) = follow_up(&mut rig, orient, f2).fail {
+                        if let Some((s, m)) = follow_up(&mut rig, reported, f2).fail {
                             bad = Some((format!("{}/{s}", op.name()), format!("{:?} on {:?}, fault at index {k} ({mode:?}, {}), second fault {k2:?}: {m}", op, cfg.tr, src_name(src))));
                         }
                     }
